@@ -1,5 +1,6 @@
 import CnvVerif.Driver.Json
 import CnvVerif.Model.Access
+import CnvVerif.Model.AccessCli
 open Lean
 namespace CnvVerif.Drv
 
@@ -84,7 +85,11 @@ def handleAccess (op : String) (inp : Json) (impl : Option Json) : R (Option Jso
     let gap : Option Int ← (match inp.getObjVal? "gap" with
       | .ok Json.null => pure none
       | .ok v => do pure (some (← getInt v))
-      | .error _ => pure (some Generated.ACCESS_DEFAULT_MIN_GAP))
+      | .error _ =>
+        -- left out: the command line has its own default (`"cli": true`), the API call do_access's
+        match inp.getObjVal? "cli" with
+        | .ok (Json.bool true) => pure (some (AccessArgs.gap ⟨[], none⟩))
+        | _ => pure (some Generated.ACCESS_DEFAULT_MIN_GAP))
     let skip : Bool ← (match inp.getObjVal? "skip" with
       | .ok v => getBool v
       | .error _ => pure Generated.ACCESS_DEFAULT_SKIP_NONCANONICAL)
